@@ -285,6 +285,17 @@ func reachingStore(ld *ssa.UnOp, al *ssa.Alloc) ssa.Value {
 				if x.Addr == ssa.Value(al) {
 					sites = append(sites, site{b, i, x.Val})
 				}
+				// a store into one element / field of the variable changes its value too
+				switch a := x.Addr.(type) {
+				case *ssa.IndexAddr:
+					if a.X == ssa.Value(al) {
+						sites = append(sites, site{b, i, nil})
+					}
+				case *ssa.FieldAddr:
+					if a.X == ssa.Value(al) {
+						sites = append(sites, site{b, i, nil})
+					}
+				}
 			case *ssa.MakeClosure:
 				for _, bd := range x.Bindings {
 					if bd == ssa.Value(al) {
@@ -327,6 +338,17 @@ func reachingStore(ld *ssa.UnOp, al *ssa.Alloc) ssa.Value {
 	}
 	if best == nil || best.val == nil {
 		return nil
+	}
+	if best.blk == lb && best.idx < li {
+		// the store precedes the load in the load's own block: every path into
+		// the load passes it, so only sites between the two can interfere
+		for i := range sites {
+			t := &sites[i]
+			if t != best && t.blk == lb && t.idx > best.idx && t.idx < li {
+				return nil
+			}
+		}
+		return best.val
 	}
 	// no other site between best and the load
 	for i := range sites {
@@ -597,6 +619,43 @@ func arrayLiteral(v ssa.Value) ([]ssa.Value, bool) {
 		return nil, false
 	}
 	vals := make([]ssa.Value, arr.Len())
+	wholeStores := false
+	for _, ref := range *al.Referrers() {
+		if st, ok := ref.(*ssa.Store); ok && st.Addr == ssa.Value(al) {
+			wholeStores = true
+		}
+	}
+	if wholeStores {
+		// the variable is also assigned as a whole: only element stores that
+		// precede the load in its own block, after the last whole store, count
+		blk := u.Block()
+		for _, in := range blk.Instrs {
+			if in == ssa.Instruction(u) {
+				break
+			}
+			st, ok := in.(*ssa.Store)
+			if !ok {
+				continue
+			}
+			if st.Addr == ssa.Value(al) {
+				vals = make([]ssa.Value, arr.Len())
+				continue
+			}
+			if ia, ok := st.Addr.(*ssa.IndexAddr); ok && ia.X == ssa.Value(al) {
+				k, ok := constInt(ia.Index)
+				if !ok || k < 0 || k >= arr.Len() {
+					return nil, false
+				}
+				vals[k] = st.Val
+			}
+		}
+		for _, x := range vals {
+			if x == nil {
+				return nil, false
+			}
+		}
+		return vals, true
+	}
 	for _, ref := range *al.Referrers() {
 		switch x := ref.(type) {
 		case *ssa.IndexAddr:
